@@ -18,6 +18,7 @@ import (
 	"verifharness/hx"
 	"verifharness/mock"
 	"verifharness/sched"
+	"verifharness/wire"
 )
 
 type scenario struct {
@@ -85,16 +86,63 @@ func build(sc scenario, tr *mock.Transport, ex netty.Executor) (netty.Channel, n
 }
 
 // what one message alone puts on the wire, and in how many low-level writes
-func alone(sc scenario, w int) (wire []byte, lowlevel int) {
+func alone(sc scenario, w int) (wireBytes []byte, lowlevel int) {
+	wireBytes, writes := aloneWrites(sc, w)
+	return wireBytes, len(writes)
+}
+
+// the payload of every low-level write one message alone causes on a synchronous channel
+func aloneWrites(sc scenario, w int) (wireBytes []byte, writes [][]byte) {
 	tr := &mock.Transport{}
 	ch, _ := build(scenario{Pipe: sc.Pipe, Async: 0}, tr, mock.Inline{})
 	ch.Write(mkMsg(sc, w))
 	for _, e := range tr.Snapshot() {
 		if e.Kind == "write" || e.Kind == "writev" {
-			lowlevel++
+			var p []byte
+			for _, b := range e.Bufs {
+				p = append(p, b...)
+			}
+			writes = append(writes, p)
 		}
 	}
-	return tr.Sent(), lowlevel
+	return tr.Sent(), writes
+}
+
+// the message as a term of coq/Model/ConvCheck.v (mspec): the body is '<', size-2 copies of one letter, '>'
+func piecesOf(b []byte) string {
+	var ps []wire.Piece
+	for i := 0; i < len(b); {
+		j := i
+		for j < len(b) && b[j] == b[i] {
+			j++
+		}
+		if j-i >= 8 {
+			ps = append(ps, wire.Piece{A: int(b[i]), B: 0, N: j - i})
+		} else {
+			ps = append(ps, wire.Piece{Lit: append([]byte(nil), b[i:j]...)})
+		}
+		i = j
+	}
+	return wire.CoqPieces(ps)
+}
+
+func msgCoq(sc scenario, w int) (string, bool) {
+	b := body(w, sc.Size)
+	switch sc.Kind {
+	case "bytes":
+		return "SBytes " + piecesOf(b), true
+	case "vec":
+		return "SVec " + hx.List([]string{piecesOf(b[:len(b)/2]), piecesOf(b[len(b)/2:])}), true
+	case "buffer":
+		return "SBuffer " + piecesOf(b), true
+	case "stringsreader":
+		return "SStringsReader " + piecesOf(b), true
+	case "bytesreader":
+		return "SBytesReader " + piecesOf(b), true
+	case "reader-small", "reader-large":
+		return "SReader " + piecesOf(b) + " [] SEOF", true
+	}
+	return "", false
 }
 
 func run(sc scenario, choose func(step int, en []*sched.Thread, last *sched.Thread) int) (stream []byte, picks []int, parked []string) {
@@ -213,6 +261,27 @@ func main() {
 			meta.Notes = append(meta.Notes, fmt.Sprintf("known-finding witness (async=%d) did not interleave: %q", async, trunc(stream)))
 		}
 	}
+	var hcs []string
+	seenCase := map[string]bool{}
+	emitCase := func(sc scenario) {
+		key := fmt.Sprint(sc.Kind, sc.Size)
+		if sc.Pipe != "none" || seenCase[key] || len(hcs) >= 200 {
+			return
+		}
+		seenCase[key] = true
+		term, ok := msgCoq(sc, 0)
+		if !ok {
+			return
+		}
+		_, writes := aloneWrites(sc, 0)
+		ds := make([]string, len(writes))
+		for i := range writes {
+			ds[i] = wire.DgCoq(writes[i])
+		}
+		id := len(hcs)
+		hcs = append(hcs, fmt.Sprintf("{| hc_id := %s; hc_msg := %s; hc_obs := %s; hc_exc := false |}", hx.Nat(id), term, hx.List(ds)))
+		meta.CaseIndex[fmt.Sprint(id)] = map[string]interface{}{"scenario": scenario{Pipe: "none", Kind: sc.Kind, Size: sc.Size, N: 2}}
+	}
 	n := hx.Pick3(args.Tier, 1200, 40000, 20000)
 	kinds := []string{"bytes", "vec", "buffer", "stringsreader", "bytesreader", "reader-small", "bytes", "vec"}
 	for i := 0; i < n; i++ {
@@ -253,6 +322,7 @@ func main() {
 		stream, picks, parked := run(sc, strat)
 		meta.Evaluations++
 		check(sc, stream, picks, meta)
+		emitCase(sc)
 		if len(parked) > 0 {
 			meta.Violate(hx.Violation{Property: "C09", What: "threads parked: " + strings.Join(parked, ","), Signature: "deadlock", Replay: map[string]interface{}{"scenario": sc}})
 		}
@@ -262,8 +332,15 @@ func main() {
 		}
 	}
 	if args.Out != "" && args.Out != os.DevNull {
-		os.WriteFile(args.Out, []byte("From Coq Require Import List.\nImport ListNotations.\nDefinition R : list nat := [].\nPrint R.\n"), 0o644)
+		// the message -> low-level writes mapping of every (type, size) used above, replayed in Model/Conv.v (head_write):
+		// C09's theorems speak about messages that are ONE low-level write; the model must say so for the right ones
+		var sb strings.Builder
+		sb.WriteString("From Coq Require Import ZArith List.\nFrom GN Require Import Base.Reader Model.Frame Model.FrameCheck Model.Conv Model.ConvCheck.\nImport ListNotations.\nOpen Scope Z_scope.\n")
+		sb.WriteString("Definition hcases : list hcase := [\n" + strings.Join(hcs, ";\n") + "].\n")
+		sb.WriteString("Definition R := Eval vm_compute in check_hcases hcases.\nPrint R.\n")
+		os.WriteFile(args.Out, []byte(sb.String()), 0o644)
 	}
+	meta.Cases = len(hcs)
 	meta.Write(args.Meta)
 }
 
